@@ -267,5 +267,6 @@ theorem apply_preFin (g : G) (a : Action) (h : JInv g)
       · exact ofRel _ (JRel.of_eq rfl rfl)
       · exact ofRel _ (JRel.trans (JRel.of_eq (g' := { g with sem := g.sem - 1 }) rfl rfl)
           (jrel_wake _ _))
+  | cancelRem p => exact ofRel _ (jrel_deliverCancels g _)
 
 end Aiorpcx.C09
